@@ -54,8 +54,7 @@ Arguments Absent {A}.
 Arguments Present {A} _ _.
 
 Record blk := mkBlk {
-  b_map_valid : bool;          (* BlockMap.IsValid(networkID): hint, manifest, signature, proposal and voteproofs items present,
-                                  tree items present when the manifest names a root *)
+  b_map_signed : bool;         (* the part of BlockMap.IsValid(networkID) that is not about items: hint, manifest, signature *)
   b_height : Z;                (* manifest.Height() *)
   b_hash : N;                  (* manifest.Hash() *)
   b_proposal_h : N;            (* manifest.Proposal() *)
@@ -94,7 +93,15 @@ Fixpoint nodupN (l : list N) : bool :=
 Definition opt_eqN (a : option N) (x : N) : bool :=
   match a with Some y => N.eqb x y | None => false end.
 
-(* base.IsValidVoteproofsWithManifest (after fix: ACCEPT majority must be the manifest) *)
+(* BlockMap.IsValid(networkID) incl. checkItems: proposal and voteproofs items present, a tree item for every
+   root the manifest names.  Checked by the callers of the importer (syncer, import command) and by the validator. *)
+Definition map_valid (b : blk) : bool :=
+  b_map_signed b && item_present (b_pr b) && item_present (b_vps b)
+  && (match b_opsroot b with None => true | Some _ => item_present (b_opstree b) end)
+  && (match b_stsroot b with None => true | Some _ => item_present (b_ststree b) end).
+
+(* base.IsValidVoteproofsWithManifest + isValidACCEPTVoteproofWithManifest (fix d462c20: the ACCEPT majority
+   must be the manifest) *)
 Definition vps_with_manifest (b : blk) (v : vp * vp) : bool :=
   let (i, a) := v in
   v_kind_ok i && v_kind_ok a
@@ -167,8 +174,8 @@ Definition val_pr (b : blk) : bool :=
   | _ => false
   end.
 
-(* IsValidOperationsOfBlock = opstree.IsValid + base.IsValidOperationsTreeWithManifest + every op IsValid *)
-Definition val_ops (b : blk) : bool :=
+(* opstree.IsValid + base.IsValidOperationsTreeWithManifest *)
+Definition ops_consistent (b : blk) : bool :=
   let tr := item_get empty_tree (b_opstree b) in
   let ops := item_get [] (b_ops b) in
   let facts := map o_fact ops in
@@ -177,13 +184,16 @@ Definition val_ops (b : blk) : bool :=
   && (match ops with
       | [] => true
       | _ => nodupN facts && forallb (fun k => memN k facts) (t_keys tr) && opt_eqN (b_opsroot b) (t_root tr)
-      end)
-  && forallb o_valid ops.
+      end).
+
+(* IsValidOperationsOfBlock = the above + every op IsValid *)
+Definition val_ops (b : blk) : bool :=
+  ops_consistent b && forallb o_valid (item_get [] (b_ops b)).
 
 Definition find_st (h : N) (sts : list st) : option st := find (fun s => N.eqb (s_hash s) h) sts.
 
-(* IsValidStatesOfBlock = ststree.IsValid + base.IsValidStatesTreeWithManifest + every state IsValid *)
-Definition val_sts (b : blk) : bool :=
+(* ststree.IsValid + base.IsValidStatesTreeWithManifest *)
+Definition sts_consistent (b : blk) : bool :=
   let tr := item_get empty_tree (b_ststree b) in
   let sts := item_get [] (b_sts b) in
   (match t_keys tr with [] => true | _ => t_valid tr end)
@@ -196,8 +206,11 @@ Definition val_sts (b : blk) : bool :=
                                   | None => false
                                   end) (t_keys tr)
              && opt_eqN (b_stsroot b) (t_root tr)
-      end)
-  && forallb s_valid sts.
+      end).
+
+(* IsValidStatesOfBlock = the above + every state IsValid *)
+Definition val_sts (b : blk) : bool :=
+  sts_consistent b && forallb s_valid (item_get [] (b_sts b)).
 
 (* isValidVoteproofsFromLocalFS *)
 Definition val_vps (b : blk) : bool :=
@@ -207,7 +220,7 @@ Definition val_vps (b : blk) : bool :=
   end.
 
 Definition validator_accepts (b : blk) : bool :=
-  b_map_valid b && all_decode b && val_pr b && val_ops b && val_sts b && val_vps b.
+  map_valid b && all_decode b && val_pr b && val_ops b && val_sts b && val_vps b.
 
 (* ---------------------------------------------------------------- correspondence *)
 
@@ -229,10 +242,20 @@ Fixpoint list_beq (a b : list bool) : bool :=
   | _, _ => false
   end.
 
-Definition check (c : blk * obs) : bool :=
-  let (b, o) := c in
-  list_beq (ob_items o) [imp_pr b; imp_ops b; imp_opstree b; imp_sts b; imp_ststree b; imp_vps b]
-  && Bool.eqb (ob_save o) (importer_accepts b)
+(* the caller may fail to hand an item of the map to WriteItem ([fed] false): Save then refuses ("not yet finished",
+   BlockImporter.isfinished).  [fed] has one flag per item in the order used everywhere: proposal, operations,
+   operations tree, states, states tree, voteproofs (true for items absent from the map). *)
+Definition save_fed (fed : list bool) (b : blk) : bool := forallb (fun x => x) fed && importer_accepts b.
+
+Definition items_fed (fed : list bool) (b : blk) : list bool :=
+  map (fun p => fst p && snd p)
+      (combine fed [imp_pr b; imp_ops b; imp_opstree b; imp_sts b; imp_ststree b; imp_vps b]).
+
+Definition check (c : blk * list bool * obs) : bool :=
+  let '(b, fed, o) := c in
+  Nat.eqb (length fed) 6
+  && list_beq (ob_items o) (items_fed fed b)
+  && Bool.eqb (ob_save o) (save_fed fed b)
   && Bool.eqb (ob_valid o) (validator_accepts b)
   && match ob_sub o with
      | None => negb (all_decode b)
